@@ -144,6 +144,12 @@ def carried_state(facts, res, ks, reach, scratch):
                     r = strip(kids(x)[1])
                     if b and r.get("k") == "CXXNewExpr" and kids(r):
                         extent[b] = facts.ntext(kids(r)[0])
+            # `member(new T[N]())` in a constructor's initialiser list
+            for ini in m.get("inits", []) or []:
+                if ini.get("member") in members:
+                    for y in [z for c_ in ini.get("c", []) if c_ for z in walk(c_)]:
+                        if y.get("k") == "CXXNewExpr" and y.get("array") and kids(y):
+                            extent.setdefault(ini["member"], facts.ntext(kids(y)[0]))
         for cc, m in reach:
             if cc != c:
                 continue
@@ -161,7 +167,8 @@ def carried_state(facts, res, ks, reach, scratch):
                 cond = [a for a in tbf.ancestors(node) if a.get("k") in ("IfStmt", "ForStmt", "WhileStmt", "DoStmt")]
                 if kind == "wcall":
                     ext = extent.get(mem)
-                    full = ext is not None and re.fullmatch(r"sizeof\([^()]*\)\*%s|%s\*sizeof\([^()]*\)" % (re.escape(ext), re.escape(ext)), detail or "") is not None
+                    full = ext is not None and (re.fullmatch(r"sizeof\([^()]*\)\*%s|%s\*sizeof\([^()]*\)" % (re.escape(ext), re.escape(ext)), detail or "") is not None
+                                                or (tbf.callee_name(node) == "setzero" and (detail or "") == ext))     # setzero(count, ptr): count in elements
                     if full and not cond:
                         defined.add(mem)
                     trace.append("%d:%s %s%s" % (line, "define" if full else "partial-write", mem, "" if not cond else " (conditional)"))
